@@ -11,3 +11,6 @@ package tsclientgen
 //@   ensures vars: r.pathParams == spec.pathVars(method)
 //@   ensures query: r.queryParams == annotations.GetQueryParams(method.Input)
 //@   ensures body: r.hasBody <==> spec.isBodyVerb(spec.verbOf(method))
+
+//@ func rootUnwrapTSType(msg *protogen.Message) (r string)
+//@   requires bounds: len(msg.Fields) >= 1
